@@ -142,11 +142,13 @@ package dns
 //@   ensures frame: r.step == old(r.step) && r.start == old(r.start) && r.end == old(r.end) && r.si == old(r.si) && r.cur == old(r.cur) && len(r.s) == old(len(r.s)) && r.lex == old(r.lex)
 
 // the tokeniser's hand-grown token and comment buffers are never indexed out of range
-//@ func (*zlexer).Next [C07 C06:eol]
+//@ func (*zlexer).Next [C07 C06:brace]
 // type/class detection is re-armed only where a record really ends: at a newline outside parentheses (a comment
 // inside parentheses does not end the record)
-//@   assert at "zl.rrtype = false@1" eol1: zl.brace == 0 [C06]
-//@   assert at "zl.rrtype = false@2" eol2: zl.brace == 0 [C06]
+// inside parentheses a newline separates tokens like a blank (RFC 1035 5.1): no pending token is carried across it
+//@   assert at "if zl.brace == 0 {@2" nlbrace: zl.brace == 0 || stri == 0 [C06]
+//@   assert at "zl.rrtype = false@1" brace1: zl.brace == 0 [C06]
+//@   assert at "zl.rrtype = false@2" brace2: zl.brace == 0 [C06]
 //@   requires zl != nil
 //@   requires lexinv: (zl.l.value == 1 ==> len(zl.l.token) > 0) && (zl.cachedL != nil ==> (zl.cachedL.value == 1 ==> len(zl.cachedL.token) > 0))
 //@   ensures lexinv: (zl.l.value == 1 ==> len(zl.l.token) > 0) && (zl.cachedL != nil ==> (zl.cachedL.value == 1 ==> len(zl.cachedL.token) > 0))
